@@ -202,15 +202,20 @@ def run_b(case):
         out.label('unflushed_text_handle')
     results = []
     with tempfile.TemporaryDirectory(prefix='c19b') as tmpdir:
-        for b in bss:
-            f = _open_kind(kind, data, tmpdir)
+        for bi, b in enumerate(bss):
+            f = _open_kind(kind, data, tmpdir) if (bi or kind == 'textfile_w+') else None
             try:
-                got = list(jsonutils.reverse_iter_lines(f, blocksize=b))
+                if f is None:
+                    # the file object is referenced by nobody but the call itself (a one-liner over open(...))
+                    got = list(jsonutils.reverse_iter_lines(_open_kind(kind, data, tmpdir), blocksize=b))
+                else:
+                    got = list(jsonutils.reverse_iter_lines(f, blocksize=b))
             except Exception as e:
                 return out.fail('b.raises', 'reverse_iter_lines(%r, blocksize=%d, %s) raised %r' % (data, b, kind, e))
             finally:
                 try:
-                    f.close()
+                    if f is not None:
+                        f.close()
                 except Exception:
                     pass
             results.append((b, got))
